@@ -792,8 +792,10 @@ def run_D_seq(case, seed):
     XA = {"p": f1.generic(), "q": f2.generic(), "v": (None if void in ("x", "both") else f1.generic())}
     XB = {"p": f1.generic(), "q": f2.generic(), "v": (None if void in ("b", "both") else f1.generic())}
 
-    def make(X):
-        return ResultDict({k: (VoidResult() if v is None else fs[k].make(v)) for k, v in X.items()})
+    def make(X, order=None):
+        # `order`: insertion order of the keys (a dictionary result is keyed by name, not by position)
+        keys = list(X) if order is None else order
+        return ResultDict({k: (VoidResult() if X[k] is None else fs[k].make(X[k])) for k in keys})
 
     def lift(fn2):      # model: member-wise with None = void (neutral)
         def g(X, Y):
@@ -814,6 +816,9 @@ def run_D_seq(case, seed):
     ops["add_b"] = (lambda x: x + make(XB), lambda X: lift(madd)(X, XB))
     ops["sub_b"] = (lambda x: x - make(XB), lambda X: lift(msub)(X, XB))
     ops["b_sub"] = (lambda x: make(XB) - x, lambda X: lift(msub)(XB, X))
+    # the same operand with its keys inserted in another order (e.g. calculators listed differently at a restart)
+    ops["add_b_reordered"] = (lambda x: x + make(XB, ["v", "q", "p"]), lambda X: lift(madd)(X, XB))
+    ops["b_reordered_sub"] = (lambda x: make(XB, ["q", "p", "v"]) - x, lambda X: lift(msub)(XB, X))
     ops["void_add"] = (lambda x: VoidResult() + x, lambda X: X)
     ops["radd0"] = (lambda x: sum([x]), lambda X: X)
     for sp in (["int", -1], ["float", 0.5]):
